@@ -884,6 +884,27 @@ def b_minmax(which):
     return g
 
 
+def np_identity(ip, args, kwargs, node):
+    n = args[0] if args else kwargs.get('n', kwargs.get('N'))
+    extra = set(kwargs) - {'n', 'N', 'dtype'}
+    if extra or len(args) > 1:
+        raise Unsupported('np.identity / np.eye with %s' % (sorted(extra) or 'several arguments'), node)
+    t, _ = ip.term_of(n, node)
+    if P.is_pw(t):
+        raise Unsupported('piecewise matrix size', node)
+    return ip.fresh_array(N.fn('ident', t))
+
+
+def op_fn(kind, name):
+    def g(ip, args, kwargs, node):
+        if kwargs or len(args) != 2:
+            raise Unsupported('operator.%s arity' % name, node)
+        if kind == 'cmp':
+            return ip.compare(name, args[0], args[1], node)
+        return ip.binop(name, args[0], args[1], node)
+    return g
+
+
 def b_sum(ip, args, kwargs, node):
     x = args[0]
     start = args[1] if len(args) > 1 else kwargs.get('start', const_num(0))
@@ -1240,7 +1261,10 @@ CALLS = {
     'itertools.product': it_product, 'itertools.combinations': it_combinations(False),
     'itertools.combinations_with_replacement': it_combinations(True),
     'warnings.warn': w_warn,
-    'builtins.len': b_len, 'builtins.range': b_range, 'builtins.abs': b_abs, 'builtins.sum': b_sum, 'builtins.max': b_minmax('max'), 'builtins.min': b_minmax('min'),
+    'builtins.len': b_len, 'builtins.range': b_range, 'builtins.abs': b_abs, 'builtins.sum': b_sum, 'numpy.identity': np_identity, 'numpy.eye': np_identity,
+    'operator.lt': op_fn('cmp', 'Lt'), 'operator.le': op_fn('cmp', 'LtE'), 'operator.gt': op_fn('cmp', 'Gt'), 'operator.ge': op_fn('cmp', 'GtE'),
+    'operator.eq': op_fn('cmp', 'Eq'), 'operator.ne': op_fn('cmp', 'NotEq'), 'operator.add': op_fn('bin', 'Add'), 'operator.sub': op_fn('bin', 'Sub'),
+    'operator.mul': op_fn('bin', 'Mult'), 'operator.truediv': op_fn('bin', 'Div'), 'builtins.max': b_minmax('max'), 'builtins.min': b_minmax('min'),
     'builtins.isinstance': b_isinstance, 'builtins.hasattr': b_hasattr, 'builtins.frozenset': b_frozenset, 'builtins.iter': b_iter, 'builtins.any': b_anyall('any'), 'builtins.all': b_anyall('all'),
     'builtins.dict.fromkeys': dict_fromkeys, 'builtins.dict': b_dict, 'builtins.id': b_id, 'builtins.set': b_set, 'builtins.getattr': b_getattr, 'builtins.enumerate': b_enumerate, 'builtins.list': b_list,
     'builtins.tuple': b_list,
